@@ -177,6 +177,16 @@ pub fn near_limits(r: &mut Rng, f: &mut dyn FnMut(&str)) {
             f(&s);
         }
     }
+    // identifier counts around 8/16/32/64 and up to what fits MAX_LENGTH, in the prerelease, in
+    // the build metadata and in both
+    for n in [7usize, 8, 9, 15, 16, 17, 31, 32, 33, 63, 64, 65, 100, 120] {
+        let ids = |r: &mut Rng, n: usize| -> String { (0..n).map(|_| *r.pick(&["a", "0", "7", "-", "x", "Z"])).collect::<Vec<_>>().join(".") };
+        let (a, b, c) = (ids(r, n), ids(r, n), ids(r, n / 2));
+        f(&format!("1.2.3-{}", a));
+        f(&format!("1.2.3+{}", b));
+        f(&format!("1.2.3-{}+{}", c, ids(r, n / 2)));
+        f(&format!("v1.2.3{}", a.replacen(|ch: char| ch.is_ascii_digit() || ch == '-', "q", 1)));
+    }
     // zero-padded numeric identifiers of every length around the width of u64 (19/20 digits)
     for pad in [1usize, 2, 3, 8, 15, 16, 17, 18, 19, 20, 21, 22, 23, 30, 60] {
         for val in ["0", "7", "42", "18446744073709551615", "18446744073709551616", "9007199254740993"] {
